@@ -28,25 +28,38 @@ gs = gs_plain
 
 
 # ----------------------------------------------------------------------------- DOT text -> abstract tree
-# A tokenising parser of the DOT language subset the graphviz package can emit for this renderer, and of the
-# HTML-like node labels.  What it is insensitive to (none of it is promised by the property, all of it is invisible
-# in the drawing): whitespace and line breaks between tokens and between the elements of a label, `;`/`,`
-# separators, quoting style of identifiers and of attribute values, order of attributes in an attribute list or a tag,
-# attributes the abstract tree does not hold, order of the statements inside a graph or cluster body (kept as
-# found: Coq compares sibling statements and edges as multisets).  It fails closed (ParseError) on anything
-# structurally unexpected: default-attribute statements for nodes/edges, edges inside clusters, subgraphs that are
-# not clusters, a cluster without its own node statement, node labels that are not one HTML table, text outside the
-# name and port cells, unbalanced tags, trailing text.
+# A tokenising parser of the DOT language and of the HTML-like node labels.  It extracts what the property speaks
+# of - node statements (name = node index) with their display name and port cells, clusters and their nesting, edge
+# statements with their end nodes / port offsets / label - and is insensitive to everything else (none of it is
+# promised by the property): whitespace and line breaks between tokens and between the elements of a label, `;`/`,`
+# separators, quoting style of identifiers and of attribute values, order of attributes in an attribute list or a
+# tag, styling attributes (present, absent, or hoisted into `node [...]` / `edge [...]` / `graph [...]` default
+# statements, which are APPLIED with DOT's scoping: to the statements after them in the same graph or subgraph and
+# in subgraphs opened after them), the graph's identifier and a `strict` keyword, order of the statements inside a
+# graph or cluster body (kept as found: Coq compares sibling statements and edges as multisets), subgraphs that are
+# not clusters (transparent groups, e.g. `{rank=same ...}`), compass points on edge ends and `tailport`/`headport`
+# attributes instead of `node:port`, inline formatting of the label (B/I/U/FONT wrappers or none, where the metadata
+# text stands, missing BGCOLOR/COLOR), the text shown inside a port cell, the spelling of the port identifiers
+# (`in.3`, `in_3`, `i3` ...: letters, an optional separator, the offset).  Colours, metadata text, cell texts, and the
+# orders found are handed on for the DIAGNOSTICS only (model drift, never a verdict).
+# It fails closed (ParseError) on what would not be a drawing of the kind the property describes: a node statement
+# without an HTML-like label or whose name is not a node index, a label whose tags are unbalanced, text outside table
+# cells, a port identifier without an offset or whose direction cannot be told, an edge statement inside a cluster
+# that does not hold both its end nodes, a cluster without exactly one statement of its own node directly inside,
+# more than one top-level node, undirected edges, trailing text.
 
 _WS = re.compile(r'(?:\s+|//[^\n]*|/\*.*?\*/|^#[^\n]*)*', re.S | re.M)
 _IDENT = re.compile(r'[A-Za-z_\u0080-\uffff][A-Za-z0-9_\u0080-\uffff]*')
 _NUMERAL = re.compile(r'-?(?:\.\d+|\d+(?:\.\d*)?)')
 _QUOTED = re.compile(r'"((?:[^"\\]|\\.)*)"', re.S)
-_PORTID = re.compile(r'(in|out)\.(-?\d+|None)$')
+_PORTID = re.compile(r'([A-Za-z]*)([._:]?)(-?\d+)$')
+_CLUSTER = re.compile(r'cluster[_.\-]?(\d+)$')
+_COMPASS = {"n", "ne", "e", "se", "s", "sw", "w", "nw", "c", "_"}
 _TAGNAMES = "TABLE|TR|TD|FONT|BR|B|I|U|O|SUB|SUP|S|IMG|HR|VR"
 _TAG = re.compile(r'<(/?)(' + _TAGNAMES + r')((?:\s+[A-Za-z_:][-A-Za-z0-9_:.]*\s*=\s*(?:"[^"]*"|\'[^\']*\'))*)\s*(/?)>', re.I)
 _ATTR = re.compile(r'([A-Za-z_:][-A-Za-z0-9_:.]*)\s*=\s*(?:"([^"]*)"|\'([^\']*)\')')
 _VOID = {"BR", "IMG", "HR", "VR"}
+_LINE = "\x00"                                       # stands for a <BR/> while the text of a cell is assembled
 
 
 def unq(s):
@@ -86,7 +99,16 @@ class _Dot:
             if not m:
                 raise ParseError("unterminated string")
             self.i = m.end()
-            return ("str", unq(m.group(1)))
+            v = unq(m.group(1))
+            while self.peek("+") and self.s.startswith('"', _WS.match(self.s, self.i + 1).end()):   # "a" + "b"
+                self.take("+")
+                self.ws()
+                m = _QUOTED.match(self.s, self.i)
+                if not m:
+                    raise ParseError("unterminated string")
+                self.i = m.end()
+                v += unq(m.group(1))
+            return ("str", v)
         if s[i] == "<":
             return ("html", self.html())
         m = _NUMERAL.match(s, i)
@@ -100,9 +122,9 @@ class _Dot:
         raise ParseError("identifier expected at: " + s[i:i + 60])
 
     def html(self):
-        """an HTML-like label <...>: one TABLE element.  The label may hold arbitrary unescaped text (names,
-        metadata), so its end is found by following the known tags: it ends after the </TABLE> that closes the
-        first <TABLE>; every `<` that does not begin a well-formed known tag is text"""
+        """an HTML-like label <...>: one element (a TABLE, possibly inside FONT/B/... wrappers).  The label may hold
+        arbitrary unescaped text (names, metadata), so its end is found by following the known tags: it ends after the
+        tag that closes the first element; every `<` that does not begin a well-formed known tag is text"""
         s = self.s
         start = self.i + 1
         stack, root, pos = [], None, start
@@ -111,8 +133,8 @@ class _Dot:
             text = s[pos:m.start()]
             pos = m.end()
             if not stack:
-                if text.strip() or close or name != "TABLE":
-                    raise ParseError("node label is not one HTML table")
+                if text.strip() or close or selfclose or name in _VOID:
+                    raise ParseError("node label is not one HTML element")
             elif text:
                 stack[-1]["ch"].append(text)
             if close:
@@ -130,8 +152,6 @@ class _Dot:
             if stack:
                 stack[-1]["ch"].append(el)
             if selfclose or name in _VOID:
-                if not stack:
-                    raise ParseError("node label is not one HTML table")
                 continue
             stack.append(el)
         if root is None:
@@ -163,154 +183,251 @@ def _plain(v, what):
     return v[1]
 
 
+def _label_text(v):
+    """the text an edge label shows: a plain string, or the text of an HTML-like label (formatting dropped)"""
+    if v is None or v[0] != "html":
+        return _plain(v, "edge label").strip()       # blanks around a label do not show (the view strips them too)
+
+    def text_of(el):
+        return "".join(c if isinstance(c, str) else (" " if c["tag"] == "BR" else text_of(c)) for c in el["ch"])
+    return html.unescape(text_of(v[1])).strip()
+
+
 def _node_index(v):
     if v[0] == "html" or not re.fullmatch(r"-?\d+", v[1]):
         raise ParseError("node statement name is not a node index: %r" % (v[1] if v[0] != "html" else "<html>"))
     return int(v[1])
 
 
+def _is_kw(a, *words):
+    return a[0] == "id" and a[1].lower() in words
+
+
+def _port_of(v, what):
+    """a port identifier -> (prefix in lower case, offset)"""
+    m = _PORTID.match(_plain(v, what)) if v is not None else None
+    if not m:
+        raise ParseError("%s: not <letters><offset>: %r" % (what, None if v is None else str(v[1])[:40]))
+    return (m.group(1).lower(), int(m.group(3)))
+
+
+def _split_compass(v):
+    """value of a tailport/headport attribute: "port" or "port:compass" """
+    if v is None or v[0] == "html":
+        return v
+    t = v[1]
+    if ":" in t and t.rsplit(":", 1)[1] in _COMPASS:
+        t = t.rsplit(":", 1)[0]
+    return None if t in _COMPASS else (v[0], t)
+
+
 def parse_dot(src: str):
-    """-> {"bg": colour, "top": node, "edges": [...]}; node = {"stmt": {...}, "cluster": None | {"id", "body": [...], "color"}}"""
+    """-> {"bg": colour, "top": node, "edges": [...], "notes": [...]};
+    node = {"stmt": {...}, "cluster": None | {"id", "body": [...], "color"}}"""
     p = _Dot(src)
     p.ws()
     kw = p.ident()
-    if kw != ("id", "digraph"):
+    notes = set()
+    if _is_kw(kw, "strict"):
+        notes.add("strict")
+        kw = p.ident()
+    if not _is_kw(kw, "digraph"):
         raise ParseError("header: " + src[:60])
     if not p.peek("{"):
-        p.ident()                                   # the graph's name
+        p.ident()                                   # the graph's name: not promised
     p.expect("{")
     edges = []
 
-    def body(depth, cluster_id):
+    def endpoint(first=None):
+        n = first if first is not None else p.ident()
+        if _is_kw(n, "subgraph") or n[0] == "html":
+            raise ParseError("edge end that is not a node")
+        port = None
+        if p.take(":"):
+            port = p.ident()
+            if p.take(":"):
+                p.ident()                            # compass point: where the line touches the cell, not which cell
+            elif port[0] == "id" and port[1] in _COMPASS:
+                port = None
+        return (n, port)
+
+    def body(path, ndef, edef):
         items, attrs = [], {}
+        ndef, edef = dict(ndef), dict(edef)        # defaults set in here end with this body
         while not p.take("}"):
             if p.take(";"):
                 continue
-            a = p.ident()
-            if a == ("id", "subgraph"):
-                name = p.ident()
-                m = re.fullmatch(r"cluster(\d+)", name[1]) if name[0] in ("id", "str") else None
-                if not m:
-                    raise ParseError("subgraph that is not a cluster<index>")
+            if p.peek("{"):                          # anonymous subgraph: a transparent group
                 p.expect("{")
-                items.append(("cluster", int(m.group(1)), body(depth + 1, int(m.group(1)))))
+                items.extend(body(path, ndef, edef)["items"])
+                notes.add("plain subgraph")
+                if p.peek("->"):
+                    raise ParseError("edge end that is not a node")
                 continue
-            if a[0] == "id" and a[1].lower() in ("node", "edge", "strict", "digraph", "graph") and p.peek("["):
+            a = p.ident()
+            if _is_kw(a, "subgraph"):
+                name = None if p.peek("{") else p.ident()
+                p.expect("{")
+                m = _CLUSTER.match(name[1]) if name is not None and name[0] in ("id", "str") else None
+                if m:
+                    cid = int(m.group(1))
+                    c = body(path + [cid], ndef, edef)
+                    again = [x for x in items if x[0] == "cluster" and x[1] == cid]
+                    if again:                        # the same subgraph opened again: DOT adds to it
+                        again[0][2]["items"].extend(c["items"])
+                        again[0][2]["attrs"].update(c["attrs"])
+                        notes.add("cluster opened more than once")
+                    else:
+                        items.append(("cluster", cid, c))
+                elif name is not None and name[0] in ("id", "str") and name[1].startswith("cluster"):
+                    raise ParseError("cluster whose name does not end in a node index: %r" % name[1][:40])
+                else:
+                    items.extend(body(path, ndef, edef)["items"])     # not a cluster: a transparent group
+                    notes.add("plain subgraph")
+                if p.peek("->"):
+                    raise ParseError("edge end that is not a node")
+                continue
+            if _is_kw(a, "node", "edge", "graph") and p.peek("["):
+                at = p.attr_list()
+                {"node": ndef, "edge": edef, "graph": attrs}[a[1].lower()].update(at)
                 if a[1].lower() != "graph":
-                    raise ParseError("default attribute statement for %ss" % a[1])
-                attrs.update(p.attr_list())
+                    notes.add("%s defaults" % a[1].lower())
                 continue
             if p.take("="):                          # graph / cluster attribute
                 if a[0] == "html":
                     raise ParseError("attribute name expected")
                 attrs[a[1]] = p.ident()
                 continue
-            port = None
-            if p.take(":"):
-                port = p.ident()
-                if p.peek(":"):
-                    raise ParseError("compass point on an edge end")
-            if p.take("->"):
-                b = p.ident()
-                p.expect(":")
-                bport = p.ident()
-                if p.peek("->") or p.peek(":"):
-                    raise ParseError("edge chain / compass point")
-                at = p.attr_list()
-                if depth > 0:
-                    raise ParseError("edge statement inside a cluster")
-                ms = _PORTID.match(_plain(port, "edge source port")) if port else None
-                mt = _PORTID.match(_plain(bport, "edge target port"))
-                if not ms or not mt or ms.group(1) != "out" or mt.group(1) != "in" or "None" in (ms.group(2), mt.group(2)):
-                    raise ParseError("edge ends are not <node>:out.<offset> -> <node>:in.<offset>")
-                edges.append({"src": _node_index(a), "sport": int(ms.group(2)), "dst": _node_index(b),
-                              "dport": int(mt.group(2)), "label": _plain(at.get("label"), "edge label"),
-                              "color": _plain(at.get("color"), "edge colour")})
+            if p.peek("--"):
+                raise ParseError("undirected edge")
+            ends = [endpoint(a)]
+            while p.take("->"):
+                ends.append(endpoint())
+            if len(ends) > 1:                        # an edge statement (a chain a -> b -> c is one edge per arrow)
+                at = {**edef, **p.attr_list()}
+                for k, ((x, xp), (y, yp)) in enumerate(zip(ends, ends[1:])):
+                    xp = xp if xp is not None else _split_compass(at.get("tailport"))
+                    yp = yp if yp is not None else _split_compass(at.get("headport"))
+                    edges.append({"src": _node_index(x), "sp": _port_of(xp, "edge source port"),
+                                  "dst": _node_index(y), "dp": _port_of(yp, "edge target port"),
+                                  "label": _label_text(at.get("label")),
+                                  "color": _plain(at.get("color"), "edge colour"), "path": path})
                 continue
-            if port is not None or p.peek("--"):
+            if ends[0][1] is not None:
                 raise ParseError("unexpected statement at: " + p.s[p.i:p.i + 60])
-            at = p.attr_list()                      # a node statement
+            at = {**ndef, **p.attr_list()}           # a node statement
             lab = at.get("label")
             if lab is None or lab[0] != "html":
                 raise ParseError("node statement without an HTML label")
             idx = _node_index(a)
-            items.append(("stmt", idx, parse_stmt(idx, lab[1], p.s)))
+            items.append(("stmt", idx, parse_stmt(idx, lab[1])))
         return {"items": items, "attrs": attrs}
 
-    top = body(0, None)
+    top = body([], {}, {})
     p.ws()
     if p.i != len(src):
         raise ParseError("text after the closing brace")
 
-    def conv(item):
+    inside = {}                                      # node index -> ids of the clusters its statement stands in
+
+    def conv(item, path):
         if item[0] == "stmt":
+            inside.setdefault(item[1], set()).update(path)
             return {"stmt": item[2], "cluster": None}
         _, cid, c = item
         own = [x for x in c["items"] if x[0] == "stmt" and x[1] == cid]
         if len(own) != 1:
             raise ParseError("cluster%d holds %d node statements of its own node" % (cid, len(own)))
+        inside.setdefault(cid, set()).update(path + [cid])
         rest = [x for x in c["items"] if x is not own[0]]
-        return {"stmt": own[0][2], "cluster": {"id": cid, "body": [conv(y) for y in rest],
-                                               "color": _plain(c["attrs"].get("color"), "cluster colour")}}
+        return {"stmt": own[0][2], "cluster": {"id": cid, "body": [conv(y, path + [cid]) for y in rest],
+                                               "color": _plain(c["attrs"].get("color"), "cluster colour"),
+                                               "own_at": c["items"].index(own[0]) - len(rest)}}
 
     tops = top["items"]
     if len(tops) != 1:
         raise ParseError("expected exactly one top-level node/cluster, got %d" % len(tops))
-    return {"bg": _plain(top["attrs"].get("bgcolor"), "bgcolor"), "top": conv(tops[0]), "edges": edges}
+    tree = conv(tops[0], [])
+
+    # which spelling of the port identifiers means which direction: in*/out* by name, anything else by use
+    # (the tail of an edge is an output port, its head an input port)
+    dirs = {"in": "in", "i": "in", "inp": "in", "input": "in", "out": "out", "o": "out", "outp": "out", "output": "out"}
+
+    def learn(prefix, d):
+        if dirs.setdefault(prefix, d) != d:
+            raise ParseError("edge %s names a port %r" % ("tail" if d == "out" else "head", prefix))
+    for e in edges:
+        learn(e["sp"][0], "out")
+        learn(e["dp"][0], "in")
+
+    def direction(prefix):
+        if prefix not in dirs:
+            raise ParseError("cannot tell the direction of port prefix %r" % prefix)
+        return dirs[prefix]
+    # the property promises one cell per input and per output port, not where the cells stand: the offsets of each
+    # direction are handed over as a sorted multiset (a missing or repeated cell still shows against 0..n-1)
+    todo = [tree]                                     # iterative: hierarchies are nested up to 66 deep and more
+    while todo:
+        node = todo.pop()
+        st = node["stmt"]
+        ins, outs = [], []
+        for (prefix, k), shown in st.pop("cells"):
+            (ins if direction(prefix) == "in" else outs).append((k, shown))
+        st["ins"], st["outs"] = sorted(k for k, _ in ins), sorted(k for k, _ in outs)
+        st["cells_in_order"] = [k for k, _ in ins] == st["ins"] and [k for k, _ in outs] == st["outs"]
+        st["cells_show_offset"] = all(str(k) == t for k, t in ins + outs)
+        if node["cluster"]:
+            todo.extend(node["cluster"]["body"])
+    out_edges = []
+    for e in edges:
+        if e["path"]:
+            notes.add("edge inside a cluster")
+            for n in (e["src"], e["dst"]):
+                if not set(e["path"]) <= inside.get(n, set()):
+                    raise ParseError("edge statement inside a cluster that does not hold its end node %d" % n)
+        out_edges.append({"src": e["src"], "sport": e["sp"][1], "dst": e["dst"], "dport": e["dp"][1],
+                          "label": e["label"], "color": e["color"]})
+    return {"bg": _plain(top["attrs"].get("bgcolor"), "bgcolor"), "top": tree, "edges": out_edges, "notes": sorted(notes)}
 
 
-def parse_stmt(idx, table, src):
-    """the HTML table of a node statement -> colours, name, data, cells.  Free text is allowed in two places only:
-    inside the FONT element that holds the <B>name</B> (name = source text of the B element, data = source text
-    from </B> to </FONT>, both verbatim), and inside the cells that carry a PORT attribute"""
-    at = table["attrs"]
-    if "BGCOLOR" not in at or "COLOR" not in at:
-        raise ParseError("node statement %d: table without BGCOLOR/COLOR" % idx)
-    ins, outs = [], []
+def parse_stmt(idx, root):
+    """the HTML-like label of a node statement -> display name, remaining text, port cells, colours.
+    Port cells are the TD elements with a PORT attribute.  The text of the statement is the text of its other cells
+    (inline formatting tags dropped, <BR/> = line break, surrounding blanks dropped); the display name is the first
+    line of the first cell that shows any text, everything after it is `data` (today: the metadata lines)"""
+    cells, blocks = [], []
+
+    def has_table(el):
+        return any(not isinstance(c, str) and (c["tag"] == "TABLE" or has_table(c)) for c in el["ch"])
 
     def text_of(el):
-        return "".join(c if isinstance(c, str) else text_of(c) for c in el["ch"])
+        return "".join(c if isinstance(c, str) else (_LINE if c["tag"] == "BR" else text_of(c)) for c in el["ch"])
 
-    def walk(el, parent):
+    def walk(el):
         if el["tag"] == "TD" and "PORT" in el["attrs"]:
-            m = _PORTID.match(el["attrs"]["PORT"])
-            if not m or m.group(2) == "None":
-                raise ParseError("node statement %d: PORT=%r" % (idx, el["attrs"]["PORT"][:40]))
-            k = m.group(2)
-            v = int(k) if html.unescape(text_of(el)).strip() == k else -999          # the cell text must show the offset
-            (ins if m.group(1) == "in" else outs).append((el["open"][0], v))
+            cells.append((_port_of(("str", el["attrs"]["PORT"]), "node statement %d: PORT" % idx),
+                          html.unescape(text_of(el).replace(_LINE, " ")).strip()))
+            return
+        if el["tag"] != "TABLE" and el["tag"] != "TR" and not has_table(el):
+            blocks.append(text_of(el))               # a cell (or a table-less label) holding text
             return
         for c in el["ch"]:
             if isinstance(c, str):
                 if c.strip():
-                    raise ParseError("node statement %d: text outside the name and port cells" % idx)
+                    raise ParseError("node statement %d: text outside the cells" % idx)
             else:
-                walk(c, el)
-    # the FONT element that holds the name may hold text after it: find the name first
-    def find_b(el, parent, acc):
-        for c in el["ch"]:
-            if not isinstance(c, str):
-                if c["tag"] == "B":
-                    acc.append((c, el))
-                elif not (c["tag"] == "TD" and "PORT" in c["attrs"]):
-                    find_b(c, el, acc)
-        return acc
-    bs = find_b(table, None, [])
-    if len(bs) != 1 or bs[0][1]["tag"] != "FONT":
-        raise ParseError("node statement %d: expected exactly one <B>name</B> inside a FONT element" % idx)
-    b, font = bs[0]
-    k = next(i for i, c in enumerate(font["ch"]) if c is b)
-    if any((c.strip() if isinstance(c, str) else True) for c in font["ch"][:k]):
-        raise ParseError("node statement %d: text before the name" % idx)
+                walk(c)
+    walk(root)
     # character references (a renderer that escapes names: &lt; for <) stand for the characters they display as
-    label = html.unescape(src[b["open"][1]:b["close"][0]])
-    data = html.unescape(src[b["close"][1]:font["close"][0]])
-    font["ch"] = []                                   # judged; everything else must be structure or port cells
-    walk(table, None)
-    # the property promises one cell per input and per output port, not where the cells stand: the offsets of each
-    # direction are handed over as a sorted multiset (a missing or repeated cell still shows against 0..n-1)
-    return {"id": idx, "label": label, "data": data, "ins": sorted(v for _, v in ins), "outs": sorted(v for _, v in outs),
-            "back": at["BGCOLOR"], "border": at["COLOR"]}
+    lines = [[html.unescape(l).strip() for l in b.split(_LINE)] for b in blocks if b.replace(_LINE, "").strip()]
+    label = lines[0][0] if lines else ""
+    data = "\n".join([l for l in lines[0][1:]] + [l for b in lines[1:] for l in b]) if lines else ""
+    table = root
+    while table["tag"] != "TABLE" and any(not isinstance(c, str) for c in table["ch"]):
+        table = next(c for c in table["ch"] if not isinstance(c, str))
+    at = table["attrs"] if table["tag"] == "TABLE" else {}
+    return {"id": idx, "label": label, "data": data, "cells": cells,
+            "back": at.get("BGCOLOR", ""), "border": at.get("COLOR", "")}
 
 
 # ----------------------------------------------------------------------------- the property
@@ -323,8 +440,9 @@ def hugr_view(h):
 
     def info(n):
         op = h[n].op
-        nq = op.name()
-        nu = op.op_def().name if isinstance(op, AsExtOp) else nq
+        # surrounding blanks are dropped on both sides: the label text is read up to blanks around it
+        nq = op.name().strip()
+        nu = op.op_def().name.strip() if isinstance(op, AsExtOp) else nq
         return {"idx": n.idx, "nq": nq, "nu": nu, "nin": h.num_in_ports(n), "nout": h.num_out_ports(n),
                 "meta": [[str(k), str(v)] for k, v in h[n].metadata.items()]}
 
@@ -335,7 +453,7 @@ def hugr_view(h):
         try:
             k = h.port_kind(s)
             if isinstance(k, tys.ValueKind):
-                kk = ["value", str(k.ty)]
+                kk = ["value", str(k.ty).strip()]
             elif isinstance(k, tys.OrderKind):
                 kk = ["order"]
             elif isinstance(k, tys.ConstKind):
@@ -350,6 +468,55 @@ def hugr_view(h):
             kk = ["error", type(e).__name__]
         links.append([s.node.idx, s.offset, t.node.idx, t.offset, kk])
     return {"tree": tree(h.root), "nodes": [n.idx for n in h], "links": links}
+
+
+def drift(view, cfg, d):
+    """DIAGNOSTICS ONLY (evidence: "model drift", never a verdict): in what the property does NOT promise, where does
+    this drawing differ from the model of today's render.py - colours chosen from the palette, metadata lines, labels
+    on non-value edges, text of the port cells, order of cells / sibling statements / edge statements, default
+    statements and other constructs the parser met"""
+    pal, out = cfg["pal"], set(d.get("notes", []))
+    info = {}
+    todo = [view["tree"]]
+    while todo:
+        t = todo.pop()
+        info[t["info"]["idx"]] = t
+        todo.extend(t["ch"])
+    if d["bg"] != pal["background"]:
+        out.add("colours differ")
+    todo = [d["top"]]
+    while todo:
+        n = todo.pop()
+        st, cl = n["stmt"], n["cluster"]
+        t = info.get(st["id"])
+        if t is None:
+            continue
+        want = (pal["edge"], pal["port_border"]) if cl else (pal["node"], pal["background"])
+        if (st["back"], st["border"]) != want or (cl and cl["color"] != pal["edge"]):
+            out.add("colours differ")
+        meta = t["info"]["meta"]
+        lines = ([""] + [html.unescape("%s: %s" % (k, v)).strip() for k, v in meta]) if meta else []
+        if st["data"] != "\n".join(lines):
+            out.add("metadata text differs")
+        if not st["cells_in_order"]:
+            out.add("port cells not in offset order")
+        if not st["cells_show_offset"]:
+            out.add("port cell text is not the offset")
+        if cl:
+            if cl["own_at"] != 0 or [x["stmt"]["id"] for x in cl["body"]] != [c["info"]["idx"] for c in t["ch"]]:
+                out.add("statement order inside a cluster differs")
+            todo.extend(cl["body"])
+    colour = {"value": pal["edge"], "order": pal["dark"], "cf": pal["dark"], "const": pal["const"], "function": pal["const"]}
+    if [(e["src"], e["sport"], e["dst"], e["dport"]) for e in d["edges"]] != [tuple(l[:4]) for l in view["links"]]:
+        out.add("edge statement order differs")
+    kinds = {(l[0], l[1]): l[4][0] for l in view["links"]}
+    for e in d["edges"]:
+        k = kinds.get((e["src"], e["sport"]))
+        if k in colour and e["color"] != colour[k]:
+            out.add("colours differ")
+        if k is not None and k != "value" and e["label"]:
+            out.add("non-value edge labelled")
+    return sorted(out)
 
 
 def sizes_of(view):
@@ -381,7 +548,12 @@ class C20(fw.Prop):
     rule = ("HUGRs built by generated well-formed builder programs (harness/progs.py: all container kinds, "
             "order/const/function/control-flow edges, metadata incl. non-ASCII and nested values, inserted "
             "sub-HUGRs), optionally reloaded from their JSON, each rendered under 2-3 of the 6 "
-            "palette x qualify_op_name configurations; the DOT source is parsed into the abstract tree.  "
+            "palette x qualify_op_name configurations (the first through render_dot() without a configuration: "
+            "whatever RenderConfig() is); the DOT source is parsed into the abstract tree; judged: node statements "
+            "(index, one of the node's two display names, cells 0..n-1 per direction), clusters and their nesting, edge "
+            "statements (end nodes, offsets, type label on value edges), HUGR unchanged, and across configurations "
+            "everything but colours and - when qualification differs - names; colours, metadata text, labels of "
+            "non-value edges, cell texts and every order are diagnostics only (model drift).  "
             "a third of the HUGRs are then mutated (leaf nodes deleted, "
             "new nodes added so that freed indices are reused and children lists leave index order; the new nodes "
             "carry Custom or extension operations of every flavour).  "
@@ -400,9 +572,12 @@ class C20(fw.Prop):
             "non-value link (order/const/function/control-flow), or it has a node with more than 16 ports in one "
             "direction, more than 16 children, or nesting deeper than 16")
     trusted = ["harness/props/c20.py: tokenising parser of the DOT text the graphviz package emits and of the HTML-like "
-               "node labels (insensitive to whitespace, quoting style, attribute and statement order; fails closed on "
-               "unexpected structure); display names and metadata strings are read from the "
-               "HUGR through op.name()/op_def().name/str(value) as render.py does",
+               "node labels (insensitive to whitespace, quoting style, attribute and statement order, styling attributes "
+               "and where they are set - node/edge/graph default statements are applied with DOT's scoping -, inline "
+               "formatting of the label, spelling of the port identifiers; fails closed on structure that is not a "
+               "drawing of nodes with port cells, clusters and edges); display names and metadata strings are read from "
+               "the HUGR through op.name()/op_def().name/str(value) as render.py does, blanks around names and type "
+               "labels dropped on both sides",
                "the graphviz Python package (DOT text emission) is outside the model"]
     assumptions = ["hierarchy reached from the root covers the HUGR's nodes (checked per case by the monitor)"]
 
@@ -481,6 +656,15 @@ class C20(fw.Prop):
                 h = progs.run(p).hugr          # the store left dangling links (C04's concern): draw it unmutated
         return h, p
 
+    @staticmethod
+    def parse(src, view, cfg):
+        d = parse_dot(src)
+        try:
+            d["drift"] = drift(view, cfg, d)
+        except Exception as e:                          # a diagnostic never decides anything
+            d["drift"] = ["diagnostic failed: " + type(e).__name__]
+        return d
+
     def observe(self, case, ctx):
         from hugr.hugr import Hugr
         from hugr.hugr.render import PALETTE, RenderConfig, DotRenderer
@@ -501,6 +685,11 @@ class C20(fw.Prop):
         for ci in case["cfgs"]:
             pal, q = CONFIGS[ci]
             palette = PALETTE[pal]
+            if ci == 0:
+                # the public entry point without a configuration: whatever the default configuration is (which
+                # palette and which qualification is the default is not part of the property)
+                dflt = RenderConfig()
+                palette, q = dflt.palette, bool(dflt.qualify_op_name)
             cfg = {"pal": {f: getattr(palette, f) for f in PAL_FIELDS}, "qualify": q}
             try:
                 if ci == 0:
@@ -512,11 +701,11 @@ class C20(fw.Prop):
                     src = rend.render(h).source
                     src2 = rend.render(h).source
                     if src2 != src:
-                        rs.append([cfg, parse_dot(src)])
+                        rs.append([cfg, self.parse(src, view, cfg)])
                         src = src2                                 # both drawings are judged
                 else:
                     src = h.render_dot(RenderConfig(palette=palette, qualify_op_name=q)).source
-                rs.append([cfg, parse_dot(src)])
+                rs.append([cfg, self.parse(src, view, cfg)])
             except ParseError as e:
                 rs.append([cfg, {"error": "ParseError: " + str(e)[:200]}])
             except Exception as e:
@@ -660,6 +849,9 @@ class C20(fw.Prop):
              "max_ports_in_one_direction": 0, "max_children": 0, "max_depth": 0, "max_links_on_one_port": 0,
              "max_name_length": 0}
 
+        dd = d["diagnostic only, no verdict (model drift): renderings that differ from the model of today's render.py in "
+               "what the property does not promise"] = {"renderings": 0}
+
         def infos(t):
             yield t["info"]
             for x in t["ch"]:
@@ -679,6 +871,10 @@ class C20(fw.Prop):
             for l in o["view"]["links"]:
                 d["links_by_kind"][l[4][0]] = d["links_by_kind"].get(l[4][0], 0) + 1
             d["render_errors"] += sum(1 for _, x in o["rs"] if "error" in x)
+            for _, x in o["rs"]:
+                dd["renderings"] += 1
+                for k in x.get("drift", []):
+                    dd[k] = dd.get(k, 0) + 1
             if o.get("prog") and not isinstance(o["prog"], str):
                 for k, v in progs.kinds_of(o["prog"]).items():
                     d["stmt_kinds"][k] = d["stmt_kinds"].get(k, 0) + v
